@@ -5,3 +5,4 @@ pub mod events;
 pub mod time;
 pub mod framer;
 pub mod assembler;
+pub mod signal;
